@@ -5,7 +5,7 @@ cd /verif
 export CARGO_NET_OFFLINE=true
 ID="$1"; shift
 ARGS=("$@")
-for a in "$@"; do [ "$a" = "--replay" ] && exec ./target/release/vcheck C15 "${ARGS[@]}"; done
+for a in "$@"; do [ "$a" = "--replay" ] && [ -z "${VERIF_C15_STATIC_ONLY:-}" ] && exec ./target/release/vcheck C15 "${ARGS[@]}"; done
 mkdir -p build replays/C15
 
 # (1) compile-time: every public type Send + Sync + 'static + Freeze. vlib built (./check did that) but autotraits does not => violation.
@@ -26,6 +26,8 @@ if [ $at_rc -ne 0 ]; then
   echo "INCONCLUSIVE property=C15: autotraits crate does not build for another reason (see build/c15-autotraits.log)" >&2
   exit 2
 fi
+
+[ -n "${VERIF_C15_STATIC_ONLY:-}" ] && exit 0
 
 # (2) auxiliary audit (NOT property-based testing; it can only fire when process-global mutable state really exists in the crate)
 python3 - <<'PY' > build/c15-audit.txt
